@@ -213,3 +213,27 @@ Definition final_hop_real (amt tl enc_len : Z) (single : bool) (total custom_len
               (if single then rec1 33 else 0) +
               (if total =? 0 then 0 else rec1 (tu_bytes total)) + custom_bytes custom_len in
   body + varint_size body + 32.
+
+(* ---------- BOLT11 route hints: RouteHintsToEdges ---------- *)
+
+(* zpay32.HopHint *)
+Record hophint := mkHH {
+  hh_node : Z; hh_chan : Z; hh_base : Z; hh_rate : Z; hh_delta : Z
+}.
+
+(* one route hint = hop hints chained in forward order: the channel of a hop
+   hint leads to the NEXT hop hint's node, the last one to the target; a hint
+   carries fee and CLTV delta only (no htlc limits, never disabled) *)
+Fixpoint hint_chain (target : Z) (l : list hophint) : list edge :=
+  match l with
+  | [] => []
+  | h :: r =>
+    let to := match r with [] => target | h' :: _ => hh_node h' end in
+    mkEdge (hh_chan h) (hh_node h) to false 0 0 false
+           (hh_base h) (hh_rate h) (hh_delta h) 0 0 fake_hint_cap
+      :: hint_chain target r
+  end.
+
+(* routing.RouteHintsToEdges (payment_session_source.go), in input order *)
+Definition hint_edges (target : Z) (hints : list (list hophint)) : list edge :=
+  flat_map (hint_chain target) hints.
